@@ -267,7 +267,7 @@ func checkC11(p *Prog, c *Check) {
 								tset := map[types.Type]bool{}
 								if !types.IsInterface(a.Type()) {
 									tset[a.Type()] = true
-								} else if !dynTypes(a, map[ssa.Value]bool{}, tset) {
+								} else if !p.dynTypesP(a, map[ssa.Value]bool{}, tset, 0) {
 									if isErrorType(a.Type()) || fc.Verbs[i] == 'T' {
 										continue // printed through Error()
 									}
